@@ -103,7 +103,10 @@ def lean_sources_for(prop_module_file):
 def prop_modules(prop_id):
     """all property files of one property: Properties/Cxx.lean and Properties/Cxx<Suffix>.lean"""
     d = LEAN / "AgpTpf" / "Properties"
-    return sorted(p for p in d.glob(f"{prop_id}*.lean") if re.fullmatch(prop_id + r"([A-Za-z_]\w*)?", p.stem))
+    # only files registered in the library root count (a property file that exists but is not imported there is work in progress)
+    root = (LEAN / "AgpTpf.lean").read_text()
+    registered = set(re.findall(r"^import AgpTpf\.Properties\.(\w+)\s*$", root, re.M))
+    return sorted(p for p in d.glob(f"{prop_id}*.lean") if re.fullmatch(prop_id + r"([A-Za-z_]\w*)?", p.stem) and p.stem in registered)
 
 
 def audit(prop_id):
@@ -128,14 +131,16 @@ def audit(prop_id):
         text = strip_comments(pf.read_text())
         # theorems with the namespace that is open at their position
         ns_stack = []
-        for m in re.finditer(r"^\s*(namespace\s+([\w\.]+)|end\s+([\w\.]+)|(?:private\s+|protected\s+)?theorem\s+([^\s\(\{\[:]+))", text, flags=re.M):
+        for m in re.finditer(r"^\s*(namespace\s+([\w\.]+)|end\s+([\w\.]+)|(private\s+|protected\s+)?theorem\s+([^\s\(\{\[:]+))", text, flags=re.M):
             if m.group(2):
                 ns_stack.append(m.group(2))
             elif m.group(3):
                 if ns_stack and ns_stack[-1].split(".")[-1] == m.group(3).split(".")[-1]:
                     ns_stack.pop()
-            elif m.group(4):
-                fulls.append(".".join(ns_stack + [m.group(4)]))
+            elif m.group(5):
+                # a `private theorem` cannot be named from the audit file; its axioms are inherited by every public theorem that uses it
+                if not (m.group(4) or "").startswith("private"):
+                    fulls.append(".".join(ns_stack + [m.group(5)]))
     res["theorems"] = [f.split(".")[-1] for f in fulls]
     for full in fulls:
         lines.append(f"#print axioms {full}")
